@@ -22,11 +22,13 @@ def assumptions(cid):
     return ASSUME.get(cid, [])
 
 def coverage(cid, stats, distinct, samples, runs, wall, total):
-    ev = stats.get("faults_fired", runs) if cid == "C19" else runs
+    ev = {"C19": stats.get("faults_fired", runs), "C03": stats.get("executions", runs), "C05": stats.get("executions", runs),
+          "C10": stats.get("executions", 0) + stats.get("plans", 0)}.get(cid, runs)
     smp = []
     for s in samples[:4]:
         try: smp.append(json.loads(s))
         except Exception: smp.append(s)
+    faults = {k[len("faults."):]: v for k, v in stats.items() if k.startswith("faults.") and not k.startswith("faults.parse") and "." not in k[len("faults."):].replace("_", "")}
     cov = {
         "evaluations": int(ev),
         "distinct_nontrivial": len(distinct),
@@ -36,10 +38,15 @@ def coverage(cid, stats, distinct, samples, runs, wall, total):
         "simulated_runs": int(runs),
         "runs_requested": int(total),
         "runs_per_hour": int(runs * 3600 / wall) if wall > 0 else 0,
+        "seeds_per_hour": int(runs * 3600 / wall) if wall > 0 else 0,
         "counters": {k: v for k, v in sorted(stats.items())},
         "components": REAL.get(cid, {}),
     }
     if cid == "C19":
         cov["simulated_time"] = {"unit": "allocation indices", "value": int(stats.get("allocs_total", 0))}
         cov["faults_injected"] = {"alloc_failure_nth": int(stats.get("faults_fired", 0))}
+    elif cid in ("C03", "C05", "C10"):
+        cov["simulated_time"] = {"unit": "source read events (logical I/O time)", "value": int(stats.get("io_events", 0))}
+        cov["faults_injected"] = {k[len("faults."):]: int(v) for k, v in stats.items() if k.startswith("faults.")}
+        cov["reach_probes"] = {k[len("boundary."):]: int(v) for k, v in stats.items() if k.startswith("boundary.")}
     return cov
